@@ -422,6 +422,35 @@ func aggEngine(r *core.Run) {
 				d.Gs[gi].Frames = d.Gs[gi].Frames[:1]
 			}
 		}
+		if i%3 == 1 && len(d.Gs) > 0 {
+			// a twin: one goroutine printed a second time under a fresh id, its pointer-looking arguments with the
+			// other accuracy marker ("0xc000012340" / "0xc000012340?", a stale register copy of the same value): the
+			// two are similar at every level, whatever names the pointers got
+			var tw gen.Goroutine
+			raw, _ := json.Marshal(&d.Gs[rr.Intn(len(d.Gs))])
+			if json.Unmarshal(raw, &tw) == nil {
+				for _, g := range d.Gs {
+					if g.ID >= tw.ID {
+						tw.ID = g.ID + 1
+					}
+				}
+				var flip func(a []gen.Arg)
+				flip = func(a []gen.Arg) {
+					for k := range a {
+						if a[k].Agg {
+							flip(a[k].Fields)
+						} else if !a[k].TooLarge && a[k].Value >= 0xc000000000 {
+							a[k].Inaccurate = !a[k].Inaccurate
+						}
+					}
+				}
+				for fi := range tw.Frames {
+					flip(tw.Frames[fi].Args.Vals)
+				}
+				d.Gs = append(d.Gs, tw)
+				r.Count("parsed_dumps_with_an_accuracy_twin", 1)
+			}
+		}
 		c := &aggCase{Dump: d}
 		s := c.snapshot()
 		if s == nil {
